@@ -285,8 +285,16 @@ class FunctorPool:
         return self
 
     def __exit__(self, exc_type=None, exc_val=None, exc_tb=None):
-        for _ in range(len(self.procs)):
-            self._work_queue.put(None)
+        stop_orders = len(self.procs)
+        while stop_orders > 0:
+            try:
+                self._work_queue.put(None, timeout=0.1)
+                stop_orders -= 1
+            except queue.Full:
+                # only running workers make room in a full work queue; when all of them are gone (e.g. they retired
+                # and were not replaced) nobody needs the remaining stop orders
+                if all(p.exitcode is not None for p in self.procs):
+                    break
         for p in self.procs:
             if p.exitcode is None:
                 p.join(timeout=self.join_timeout)
